@@ -5,6 +5,11 @@ E1 = "symx"
 E2 = "sqlsem"
 E3 = "pybmc"
 CHECKS = {
+    "C04": dict(engine=E1, category="other",
+        technique="(a) z3 enumeration of all collisions of the bind-name escaping table read from the compiler class, replayed through the public API on sqlite3; (b) solver-chosen bind-name assignments (CrossHair + z3, exhaustive per slice) over 12 statement shapes x 6 paramstyles executed on a real Engine with a recording DBAPI, differential against the literal_binds rendering",
+        text="(b) For every paramstyle (qmark, format, numeric, numeric_dollar, named, pyformat), each of 12 statement shapes (select list, WHERE, repeated bind, CTE, scalar subquery+ORDER BY+LIMIT/OFFSET, HAVING, expanding IN, literal_execute, INSERT, UPDATE, text(), UNION) and every ordered assignment of 1-2 (thorough 3) bind names from a pool exercising every escape character, the statement and parameters the DBAPI receives, with each placeholder replaced by the value delivered for it, equal the literal_binds rendering -- on the first execution and on a cache-hitting re-execution with other values. (a) z3 finds every pair of characters the escaping maps together; each is executed on sqlite3.",
+        note="Trusted: placeholder regexes and recording DBAPI in props/C04.py; DefaultDialect(paramstyle=...) stands for the driver dialects; literal_binds rendering as reference (an independent code path of the same compiler). Real drivers are outside.",
+        ref="DESIGN.md §4 C04"),
     "C07": dict(
         engine=E2, category="translation_validation",
         technique="translation validation: compiled IN/NOT IN (literal, bound+post-compile expansion, cache re-bind path) re-parsed with the backend grammar; equality with the OR-of-equalities meaning under 3VL decided by z3 for all column values; sqlite3 replay",
